@@ -7,8 +7,8 @@ namespace Axelar.Surface
 open Axelar Generated
 
 def governanceExpected : List (String × String × Bool × String × Nat) := [
-  ("callback", "execute_operator_proposal_callback", false, "", 4),
-  ("callback", "execute_proposal_callback", false, "", 5),
+  ("callback", "execute_operator_proposal_callback", false, "", 0),
+  ("callback", "execute_proposal_callback", false, "", 0),
   ("endpoint", "execute", false, "", 4),
   ("endpoint", "executeOperatorProposal", false, "*", 3),
   ("endpoint", "executeProposal", false, "*", 3),
